@@ -137,8 +137,17 @@ def configs(tier):
                 Config('EFloat', {'es': 2, 'nbits': 4, 'inf': False, 'nan_kind': 'NEG_ZERO', 'eoffset': 0,
                                   'nan_value': None, 'inf_value': 0}),
                 Config('Exp', {'nbits': 3, 'eoffset': 0}), Config('REAL', {})]
+        # NaN and infinity options that differ from each other (each alone)
+        for nan, inf in ((True, False), (False, True)):
+            out += [Config('MPBFixed', {'nmin': -1, 'maxval': 5, 'nan': nan, 'inf': inf}),
+                    Config('MPFixed', {'nmin': -2, 'nan': nan, 'inf': inf}),
+                    Config('MPBFloat', {'p': 2, 'emin': 0, 'maxval': 6, 'nan': nan, 'inf': inf}),
+                    Config('MPSFloat', {'p': 2, 'emin': -1, 'nan': nan, 'inf': inf}),
+                    Config('MPFloat', {'p': 2, 'nan': nan, 'inf': inf})]
         return out
-    return [c for c in c01cfg('quick') if not (c.family == 'EFloat' and c.params['nbits'] > 4)]
+    out = [c for c in c01cfg('quick') if not (c.family == 'EFloat' and c.params['nbits'] > 4)]
+    have = {c.key() for c in out}
+    return out + [c for c in configs('quick') if c.key() not in have]
 
 
 def operands(spec, tier):
